@@ -6,7 +6,9 @@ def run(rep, kf, tier, seed):
     from pyvc import engine_b
     import contracts.responses_b as rb
     import contracts.responses_c as crc
-    engine_b.discharge(rep, kf, [rb.source_table_contract(), rb.add_responses_contract(), crc.response_contract()], "C04", tier, seed)
+    import contracts.config_c as cfgc
+    engine_b.discharge(rep, kf, [rb.source_table_contract(), rb.add_responses_contract(), crc.response_contract(),
+                                 cfgc.get_content_type_contract()], "C04", tier, seed)
     run_endpoints(rep, kf, tier, seed, "C04")
     range_precedence(rep, kf, tier, seed)
     from props.common import run_bounded
